@@ -64,7 +64,7 @@ theorem mkChunk_ok_own {dt k rid : String} {s e : Int} {rows : List Row} {tg : N
   rw [← this, mkChunk_eq, mkChunk_eq]
   cases sub <;> simp [mkStage2, mkStage3]
 
-theorem sortRuns_pair {a b : Run} (h : a.start ≤ b.start) : sortRuns [a, b] = [a, b] :=
+theorem sortRuns_pair {a b : Run} (h : runLe a b = true) : sortRuns [a, b] = [a, b] :=
   List.mergeSort_of_pairwise (by simp [h])
 
 /-! ## 11. one turn of `Plugin.iter` on a loader chunk -/
@@ -210,7 +210,7 @@ theorem concat_border {dt rid' rid : String} {k c : Chunk} {p : Int} (hk : RemCh
   rw [hrows, htg, hlast]
   have hpos := hc.hpos
   exact mkChunk_ok_gen hk.h0 (by omega) (fun x hx => by have := hc.hin x hx; omega) (by intro y hy; cases hy)
-    (by simp) (by simp) (sortRuns_pair hp) (by simp [runsOverlap]; omega)
+    (by simp) (by simp) (sortRuns_pair (by simp only [runLe, decide_eq_true_eq]; omega)) (by simp [runsOverlap]; omega)
 
 /-- cutting the border chunk at its end: the empty span of the previous run is dropped, the piece keeps the
 previous run's id (first key of the `superrun` dict) but records only the new run -/
